@@ -38,6 +38,7 @@ def judge(ctx, status: str) -> list[dict]:
         judge_damage = False
     mal_key = mal["op"] if mal else None
     mal_kind = mal["kind"] if mal else None
+    mal_all = {m["op"]: m["kind"] for m in ([mal] if mal else []) + list(desc.get("malformed_more") or [])}
     if ctx.desc["sub"] == "callers":
         st = ctx.extra.get("c08") or {}
         if st.get("load_error"):
@@ -60,7 +61,8 @@ def judge(ctx, status: str) -> list[dict]:
         for key, op in u.ops.items():
             on_ref = op.path in ref_paths
             reported_err = any(e.endswith(" " + op.path) for e in errs)
-            if key == mal_key:
+            if key in mal_all:
+                mal_kind = mal_all[key]
                 if not judge_damage:
                     continue
                 if key in oks:
@@ -81,9 +83,12 @@ def judge(ctx, status: str) -> list[dict]:
                 v("R3", f"{key} does not depend on the broken file {fault['file']} but was not offered", what="unaffected_operation_not_offered")
             if fault and fault["file"].startswith("/paths") and on_ref and key in oks:
                 v("R3", f"{key} lives in the unreachable file {fault['file']} but was offered for testing", what="broken_operation_offered")
+        for was, now in st.get("err_relabelled") or []:
+            v("R3", f"the schema error yielded for {was} names {now} when it is looked at after the traversal (the error object is shared and rewritten)",
+              what="error_relabelled", malformed_entry=mal_all.get(was))
         if not fault:
             for e in errs:
-                if mal_key is not None and e.endswith(" " + u.ops[mal_key].path):
+                if any(e.endswith(" " + u.ops[k].path) for k in mal_all):
                     continue
                 v("R3", f"get_all_operations() reported an error for {e} although the document is well-formed", what="spurious_error",
                   iteration_began_before=bool(st.get("iter_was_suspended")))
@@ -128,7 +133,8 @@ def judge(ctx, status: str) -> list[dict]:
         labels = Counter(e.label for e in started if e.phase.value == ph_val)
         for key, op in u.ops.items():
             named = any(e.phase.value == ph_val and (e.label == key or op.path in str(e.label)) for e in errors)
-            if key == mal_key:
+            if key in mal_all:
+                mal_kind = mal_all[key]
                 if labels.get(key, 0) > 0 and not named:
                     v("R3", f"{key} is damaged ({mal_kind}) but was tested in phase {ph_key} without any error", what="damaged_operation_offered", malformed_entry=mal_kind)
                 elif labels.get(key, 0) == 0 and not named:
